@@ -34,17 +34,26 @@ fn write_file
 )
 -> Result<(), ReadWriteError>
 {
-    match system.create_file(file_path)
+    /*  Write to a temporary file and rename, so that an interruption never
+        leaves a half-written file behind. */
+    let temp_path = format!("{}.tmp", file_path);
+    match system.create_file(&temp_path)
     {
         Ok(mut file) =>
         {
             match file.write_all(&content)
             {
-                Ok(_) => return Ok(()),
+                Ok(_) => {},
                 Err(error) => return Err(ReadWriteError::IOError(format!("{}", error))),
             }
         }
         Err(error) => return Err(ReadWriteError::SystemError(error)),
+    }
+
+    match system.rename(&temp_path, file_path)
+    {
+        Ok(_) => Ok(()),
+        Err(error) => Err(ReadWriteError::SystemError(error)),
     }
 }
 
